@@ -31,7 +31,7 @@ def check(an, rep, tier):
           'transformation.full_matrix', 'transformation.full'}
     runs = sweep(an, rep, ['svd.svd', 'svd.svd_matrix', 'svd.matrix_skeleton',
                            'svd.matrix_svd', 'transformation.full_matrix'], ds,
-                 rules=S_RULES + ['U-cmp', 'O-gram', 'G-cancel', 'G-sqrt'],
+                 rules=S_RULES + ['U-cmp', 'U-abs', 'O-gram', 'G-cancel', 'G-sqrt'],
                  wheres=wh)
     want = {"'l'": ('weighted', 'rows'), "'r'": ('cols', 'weighted'),
             "'m'": ('half', 'half')}
@@ -79,6 +79,40 @@ def check(an, rep, tier):
                                                     'cols') else 'unknown'),
                             '' if got == 'rows' else 'right factor state %s'
                             % got)
+    # --- P-forward: the accuracy of every truncated factorisation of the
+    # sweep is the per-unfolding accuracy e the caller asked for (the same
+    # object in the abstract run, or the same literal when it is the default)
+    for r in runs:
+        if r.qualname not in ('svd.svd', 'svd.svd_matrix'):
+            continue
+        entry = [a for (q_, a, _res) in r.I.call_log if q_ == r.qualname]
+        if not entry or not isinstance(entry[-1], dict) or \
+                'e' not in entry[-1]:
+            continue
+        e0 = entry[-1]['e']
+        for (q_, a, _res), meta in zip(r.I.call_log, r.I.call_meta):
+            if q_ not in ('svd.matrix_skeleton', 'svd.matrix_svd') or \
+                    not isinstance(a, dict) or 'e' not in a:
+                continue
+            caller = meta.get('caller') or ''
+            if not (caller == r.qualname or
+                    caller.startswith(r.qualname + '.') or
+                    caller.startswith(r.qualname.split('.')[0] + '._')):
+                continue
+            e1 = a['e']
+            if e1 is e0 or (e0.has_const() and e1.has_const() and
+                            e0.c == e1.c):
+                st_, det_ = 'ok', ''
+            elif e0.has_const() and e1.has_const():
+                st_, det_ = 'violation', \
+                    'the caller asks for the per-unfolding accuracy %r, ' \
+                    'the factorisation of an unfolding is run with %r' \
+                    % (e0.c, e1.c)
+            else:
+                st_, det_ = 'unknown', 'the accuracy handed on is not the ' \
+                    'caller\'s object'
+            rep.add('P-forward', r.qualname, '%s receives the caller\'s e '
+                    '(%s)' % (q_, r.tag()), st_, det_)
     _rel_norm(prog, rep)
     F.check_selectors(prog, rep)
     F.check_rank_value(an, rep, 'svd.matrix_svd')
@@ -90,6 +124,7 @@ def check(an, rep, tier):
     rep.floor('O-summary', 5, 'factor summaries')
     rep.floor('O-gram', 2, 'selectors')
     rep.floor('F-rank', 2, 'rank formulas')
+    rep.floor('P-forward', 4, 'forwarded accuracy')
     rep.floor('P-rel-norm', 1, 'relative tail measure')
     rep.floor('S-ret', 4, 'results')
     rep.floor('S-reshape', 3, 'unfolding reshapes')
